@@ -45,6 +45,7 @@ func C12(c *Ctx) {
 	c.Note("equality of contents after reopen; expiry metadata; that replayed memtables equal the closed ones")
 	flushNeverSkippedGroup(c, "K11.failed-flush-never-skipped")
 	vlogRewindGroup(c, "K2.vlog-append-failure-rewound")
+	internalKeysHiddenGroup(c, "K2.internal-keys-hidden")
 	const r1 = "K1.close-order"
 	c.Rule(r1, "DB.closeInternal stops the commit workers, then closes the LSM, the value log, the WAL and finally releases the directory lock, and only then marks the DB closed; wal.Manager.Close flushes, fsyncs and closes in that order; stopCommitWorkers closes the queue before waiting for the worker")
 	if fn := c.Fn("", "DB.closeInternal"); fn != nil {
